@@ -16,8 +16,14 @@
    meaning: the loop bodies of the generated text are compared with the model's
    loop step (ExpandProofs.gloop) case by case ([split_tests; same_step]: the
    limit tests `limit <= 0` / `limit == 0` against the model's [exhausted], the
-   decrement against [lim_sub]); they survive renamings, comments, reformatting
-   and rewrites that leave every loop step arithmetically the same. *)
+   decrement against [lim_sub]).  They are written to survive rewrites of the
+   source that leave every loop step the same: renamings, comments, reformatting,
+   hoisted locals, `x = x + 1` for `x += 1`, another order of the statements of a
+   loop body (the shape and order of the loop-carried state tuple is read off the
+   goal: [apply_gloop]), the mask loop with a manual counter or with enumerate and
+   either polarity of its test ([for_from_mask0] / [for_from_mask_enum0],
+   [mask_body]), any arithmetically equal form of the limit tests and of the test
+   `len(pt) == 1` ([split_len_test]), `if limit:` / `if not limit:`. *)
 From Coq Require Import List Arith ZArith NArith Bool Lia.
 From Pcfg Require Import KernelRt Expand ExpandProofs ExpandRt.
 From PcfgGen Require Import Expand_gen.
@@ -321,6 +327,18 @@ Ltac split_tests :=
   | |- context [Z.ltb ?a ?b] => destruct (Z.ltb_spec a b)
   | |- context [Nat.leb ?a ?b] => destruct (Nat.leb_spec a b)
   end.
+(* the test that tells the last slot from the others (`len(pt) == 1`, `len(pt) > 1`,
+   `2 > len(pt)`, ...) once pt is known to have one / at least two elements *)
+Ltac split_len_test :=
+  unfold len; cbn [length];
+  repeat match goal with
+  | |- context [Z.eqb (Z.of_nat ?n) ?b] => destruct (Z.eqb_spec (Z.of_nat n) b) as [?Hlen|?Hlen]; try (exfalso; lia)
+  | |- context [Z.eqb ?b (Z.of_nat ?n)] => destruct (Z.eqb_spec b (Z.of_nat n)) as [?Hlen|?Hlen]; try (exfalso; lia)
+  | |- context [Z.leb (Z.of_nat ?n) ?b] => destruct (Z.leb_spec (Z.of_nat n) b) as [?Hlen|?Hlen]; try (exfalso; lia)
+  | |- context [Z.leb ?b (Z.of_nat ?n)] => destruct (Z.leb_spec b (Z.of_nat n)) as [?Hlen|?Hlen]; try (exfalso; lia)
+  | |- context [Z.ltb (Z.of_nat ?n) ?b] => destruct (Z.ltb_spec (Z.of_nat n) b) as [?Hlen|?Hlen]; try (exfalso; lia)
+  | |- context [Z.ltb ?b (Z.of_nat ?n)] => destruct (Z.ltb_spec b (Z.of_nat n)) as [?Hlen|?Hlen]; try (exfalso; lia)
+  end; cbn [negb]; cbv iota.
 Ltac same_step :=
   first [ reflexivity
         | exfalso; lia
@@ -390,7 +408,7 @@ Proof.
     { (* capitalisation masks *)
       destruct vals as [|m0 ms]; [reflexivity|].
       rewrite seq_index_cons0. cbn [bindx].
-      rewrite slice_to_neg_len, slice_from_neg_len, len_cons_eq_1.
+      rewrite slice_to_neg_len, slice_from_neg_len.
       unfold for_each.
       apply_gloop idx l.
       - intros m _ i st acc num l0 [j ->]. cbv beta iota.
@@ -405,10 +423,11 @@ Proof.
           [|reflexivity].
         rewrite str_join_nil. cbn [app concat].
         destruct ptr as [|p ptr'].
-        + inversion Hrest; subst rest. cbn [cont]. unfold append.
+        + split_len_test. inversion Hrest; subst rest. cbn [cont]. unfold append.
           destruct l0 as [[|n]|];
             cbn [zlim option_map if_truthy exhausted lim_sub active]; split_tests; same_step.
-        + assert (Hne : exists s' rest', rest = s' :: rest').
+        + split_len_test.
+          assert (Hne : exists s' rest', rest = s' :: rest').
           { cbn [resolve] in Hrest. destruct (resolve_node gv p); [|discriminate].
             destruct (resolve gv ptr'); [|discriminate]. inversion Hrest. eauto. }
           destruct Hne as [s' [rest' ->]]. cbn [cont].
@@ -421,14 +440,15 @@ Proof.
       - intros st acc num l0 [j ->]. reflexivity.
       - exists idx. reflexivity. }
     (* plain replacement *)
-    rewrite len_cons_eq_1. unfold for_each.
+    unfold for_each.
     apply_gloop no_junk l.
     { intros it _ i st acc num l0 [j ->]. cbv beta iota.
       destruct ptr as [|p ptr'].
-      + inversion Hrest; subst rest. cbn [cont]. unfold append.
+      + split_len_test. inversion Hrest; subst rest. cbn [cont]. unfold append.
         destruct l0 as [[|n]|];
           cbn [zlim option_map if_truthy exhausted lim_sub active]; split_tests; same_step.
-      + assert (Hne : exists s' rest', rest = s' :: rest').
+      + split_len_test.
+          assert (Hne : exists s' rest', rest = s' :: rest').
         { cbn [resolve] in Hrest. destruct (resolve_node gv p); [|discriminate].
           destruct (resolve gv ptr'); [|discriminate]. inversion Hrest. eauto. }
         destruct Hne as [s' [rest' ->]]. cbn [cont].
